@@ -168,6 +168,8 @@ def issues_from_validation(ctx, res, label):
                 # precision class in force at the save
                 cls = ":f%s:d%s" % (_prec_class(ev.get("fp", "default")),
                                     _prec_class(ev.get("dp", "default")))
+                if ev.get("via", "current") != "current":
+                    cls = ":" + ev["via"]
             elif evname == "LegacyLoad":
                 cls = ":%s:%s%s:ok%s:%s" % (ev.get("kind"), ev.get("style"),
                                             ev.get("major"), ev.get("ok"),
@@ -320,6 +322,14 @@ def run(ctx, exe, tier, seed, cases=None, maxdim=None):
               lambda a, b: ["legacy", v2, ref, str(a), str(b)], nleg, stats,
               issues, nshards=4)
     stats["legacy_cases"] = nleg
+    # the same calibrations in the current format and, written by the
+    # harness's own writer, in the "#VNACAL 2.0" layout (E12 1x1 .. 3x3) /
+    # under a "#VNACAL 3.0" first line (all types)
+    nlw = 90 if tier == "quick" else 1800
+    _run_mode(ctx, exe, "legacy layouts written by the harness", "legacyw",
+              lambda a, b: ["legacyw", str(seed), str(a), str(b)], nlw, stats,
+              issues, nshards=vlib.NCPU, per_shard=30)
+    stats["legacy_writer_cases"] = nlw
     return issues, stats
 
 
@@ -336,6 +346,8 @@ def replay(ctx, exe, path):
     parts = cid.split(":")
     if parts[0] == "hist":
         args = ["hist", parts[1], parts[2], str(int(parts[2]) + 1), parts[3]]
+    elif parts[0] == "legacyw":
+        args = ["legacyw", parts[1], parts[2], str(int(parts[2]) + 1)]
     else:
         ref = make_reftable(ctx)
         v2 = os.path.join(_tests_dir(), "compat-V2.vnacal")
